@@ -18,7 +18,7 @@ RULE = ('2-4 interpreters on generated charts that send events (with parameters 
         'seeded scheduler interleaves bind / detach (chains, fan-out, cycles, self-binding; interpreter targets bound directly), queue, clock '
         'advances (each interpreter has its own clock) and execute_once on a scheduler-chosen interpreter. For every returned step of a '
         'sender the deliveries observed by the callables must be exactly (sent internal event x callable targets bound at that moment) in '
-        'sending order then binding order, as plain Event with equal name and data (in a third of the runs some events carry the context Box, an object without value equality: the delivered parameter must be that very object); interpreter targets are checked through the C05 queue '
+        'sending order then binding order, as plain Event with equal name and data (in a third of the runs some delays are negative; in a third some events carry the context Box, an object without value equality: the delivered parameter must be that very object); interpreter targets are checked through the C05 queue '
         'model (delivered event consumed later as an external event, FIFO, after its delay counted from the receiver time); the sender '
         'still consumes its own copy as an internal event. non-trivial = a sender step with >= 1 sent event and >= 2 bound targets; '
         'distinct = distinct (charts, topology, sender, sent events)')
@@ -94,12 +94,14 @@ def run(ch, tier):
     anon = cs.flag(1, 2)
     payload = cs.flag(1, 3)    # some sent events carry the context's list and its Box (an object without value equality)
     IDS[0] = Ids()
+    neg = cs.flag(1, 3)
     for i in range(nint):
         cfg = swarm(cs, Cfg(sends=True, notify=True, delays=True, max_states=8), tier)
         cfg.max_states = min(cfg.max_states, 8)
         cfg.max_trans = min(cfg.max_trans, 10)
         cfg.anon = anon
         cfg.payload = payload
+        cfg.neg_delays = neg      # some events are sent with a negative delay: due since before they were sent, they queue up in front
         sp = sims[0].sp if (twins and sims) else gen_spec(ch.s('chart%d' % i), cfg)
         P = Probe(tag='i%d' % i)
         P.uid = 100000 * (i + 1)
